@@ -30,6 +30,8 @@ def designs():
     yield 'seq', NL(2, [('dff', 'g0')], [('AND2', ('i0', 'q0')), ('NOR2', ('n0', 'i1'))], ['g1'])
     yield 'ao', NL(3, [], [('AO21', ('i0', 'i1', 'i2')), ('BUF1', ('g0',))], ['g1'])
     yield 'open', NL(2, [], [('NAND2', ('i0', None)), ('NOR2', (None, 'i1'))], ['g0', 'g1'])
+    # output pins that are not connected in the netlist (unused QN, a gate nobody reads): IOPATHs naming them still annotate the input line
+    yield 'openout', NL(2, [('dff', 'g0')], [('AND2', ('i0', 'q0')), ('NOR2', ('i0', 'i1'))], ['g0'])
     # same pin names at different pin positions in different cell kinds (NANGATE: B1 is pin 1 of AOI21 and pin 2 of AOI22)
     yield 'mixpins', NL(4, [], [('AOI21', ('i0', 'i1', 'i2')), ('AOI22', ('i0', 'i1', 'i2', 'i3')), ('OAI21', ('g0', 'g1', 'i3'))], ['g2'])
 
@@ -146,7 +148,7 @@ def build_design(libname, dname, bf, escape):
 
 
 def io_candidates(instances):
-    return [(iname, cell, p, opins[0]) for iname, cell, ipins, opins in instances for p in ipins]
+    return [(iname, cell, p, op) for iname, cell, ipins, opins in instances for p in ipins for op in opins[:1 + (len(ipins) <= 2 and len(opins) > 1)]]
 
 
 def ic_candidates(lib, c, instances):
